@@ -73,7 +73,7 @@ const SMALL: &[WidthInt] = &[1, 1, 2, 3, 4, 8];
 const WIDE: &[WidthInt] = &[1, 2, 8, 16, 31, 32, 33, 63, 64, 65, 127, 128, 129];
 
 fn expr_cfg(widths: &[WidthInt], div_rem: bool) -> GenCfg {
-    GenCfg { max_depth: 3, arrays: true, div_rem, array_eq: false, widths: widths.to_vec(), max_index_width: 3, syms_per_type: 1, mul_max_width: 128 }
+    GenCfg { max_depth: 3, arrays: true, div_rem, array_eq: false, widths: widths.to_vec(), max_index_width: 5, syms_per_type: 1, mul_max_width: 128 }
 }
 
 fn gen_with_pool(ctx: &mut Context, rng: &mut Rng, cfg: &GenCfg, pool: &[ExprRef], tpe: Type, depth: u32) -> ExprRef {
@@ -99,11 +99,11 @@ fn gen_case(rng: &mut Rng, stats: &mut Stats, args: &Args) -> Case {
     stats.bump("distinct_widths_per_system", &format!("{n_widths}"));
     stats.bump("width_profile", if wide { "wide" } else { "small" });
     let cfg = SysCfg {
-        max_bv_states: 4,
+        max_bv_states: if rng.chance(1, 5) { 6 } else { 4 },
         max_inputs: 3,
         array_state_chance: (1, 3),
         widths: widths.clone(),
-        max_depth: 1 + rng.below(3) as u32,
+        max_depth: if rng.chance(1, 6) { 4 } else { 1 + rng.below(3) as u32 },
         max_bads: 1,
         max_constraints: 1,
         max_outputs: 2,
@@ -116,7 +116,7 @@ fn gen_case(rng: &mut Rng, stats: &mut Stats, args: &Args) -> Case {
 
     // a second array state whose next function stores into it / copies the first one
     if rng.chance(1, 6) {
-        let iw = rng.range(1, 3) as WidthInt;
+        let iw = if rng.chance(1, 4) { rng.range(4, 5) } else { rng.range(1, 3) } as WidthInt;
         let dw = *rng.pick(&widths);
         let sym = ctx.array_symbol("mem2", iw, dw);
         let mut pool = declared(&sys);
